@@ -102,6 +102,11 @@ fn body(fen: &str, ks: &[usize], gos: usize) {
                     Err(e) => {
                         if e.downcast_ref::<sched::thread::Livelock>().is_none() {
                             let msg = if let Some(s) = e.downcast_ref::<&str>() { s.to_string() } else if let Some(s) = e.downcast_ref::<String>() { s.clone() } else { "panic".into() };
+                            if msg.contains("self.threads.len()") || msg.contains("max_branches") {
+                                // a limit of the explorer itself, not a behaviour of the engine
+                                eprintln!("MACHINERY-ERROR: loom limit hit: {}", msg);
+                                std::process::exit(2);
+                            }
                             sched::ctx().search_panics.lock().unwrap().push(format!("io thread: {}", msg));
                         }
                         break;
@@ -223,7 +228,7 @@ fn main() {
     let mut b = loom::model::Builder::new();
     b.preemption_bound = bound;
     b.max_branches = 1_000_000;
-    b.max_threads = 4;
+    b.max_threads = 5; // loom's compile-time limit: the model's first thread, the I/O thread and up to three search threads
     let wall = std::env::var("WMC_MAX_SECS").ok().and_then(|s| s.parse().ok()).unwrap_or(600u64);
     b.max_duration = Some(std::time::Duration::from_secs(wall));
     let t0 = std::time::Instant::now();
